@@ -123,7 +123,7 @@ func runC19(c *Ctx) {
 			}},
 			Req{Name: "block-delay-passed", Any: [][]string{
 				{"eq(param#4, 0)"},
-				{"F(call:$clientT.Height.LT(call:$clientT.GetSelfHeight(param#0), ~wf(RevisionHeight, binop:+(~and(?ph, field:RevisionHeight(extract:0(call:$clientT.ParseHeight(conv:string(call:iface:*KVStore.Get(param#1, ~key(\"consensusStates/{s}/processedHeight\", param#2))))))), param#4))))",
+				{"F(call:$clientT.Height.LT(call:$clientT.GetSelfHeight(param#0), ~and(~wf(RevisionHeight, binop:+(~and(?ph, field:RevisionHeight(~and(?proc, extract:0(call:$clientT.ParseHeight(conv:string(call:iface:*KVStore.Get(param#1, ~key(\"consensusStates/{s}/processedHeight\", param#2)))))))), param#4)), ~wf(RevisionNumber, field:RevisionNumber(?proc)))))",
 					"le(param#4, binop:+(?ph, param#4))"},
 			}},
 		)
